@@ -1,4 +1,5 @@
 -- root of the library: everything that must build (models, facts ties, property theorems, driver)
 import RV.Model.MD5Test
+import RV.Model.CryptoTest
 import RV.Facts.Tie
 import RV.Driver.Main
